@@ -154,6 +154,10 @@ func engine(family, profile string, seed uint64, n int, out string, shard int, i
 		}
 		stats.Add(c)
 		if c.SkipModel {
+			if family == "engine" && !c.RepeatsAgree() {
+				// (cases the model does not judge: the repeat oracle is evaluated here)
+				failures = append(failures, map[string]any{"id": i, "tags": []string{"repeat"}, "detail": "the same call gave different results:\n" + strings.Join(c.Repeats, "\n---\n")})
+			}
 			continue
 		}
 		if len(only) > 0 && !c.RepeatsAgree() {
